@@ -196,6 +196,29 @@ def run_case(ctx, data, cuts, conts, rseed, use_ctor=False):
     return inside
 
 
+def checkpoint_case(ctx, data, cut, how):
+    """A parser is duplicated mid-stream (copy.deepcopy / pickle); both go on independently."""
+    import copy
+    import pickle
+    case = lambda: {'kind': 'checkpoint', 'bytes': bytes(data), 'cut': cut, 'how': how}  # noqa: E731
+    _, ref = reference(data)
+    try:
+        p = Parser()
+        with gen.jumping_clocks():
+            p.feed(bytes(data[:cut]))
+            q = copy.deepcopy(p) if how == 'deepcopy' else pickle.loads(pickle.dumps(p))
+            q.feed(list(data[cut:]))
+            got_q = list(q)
+            got_p_before = list(p)             # the original was not fed the rest
+            p.feed(bytes(data[cut:]))
+            got_p = got_p_before + list(p)
+        ctx.check('final sequence == reference', got_q == ref and got_p == ref, f'checkpoint:{how}', case,
+                  lambda: {'copy': [m.hex() for m in got_q][:6], 'original': [m.hex() for m in got_p][:6],
+                           'want': [m.hex() for m in ref][:6]})
+    except Exception as exc:
+        ctx.fail('no exception', f'checkpoint:{how}:{type(exc).__name__}', case, f'{type(exc).__name__}: {exc}')
+
+
 def run_queue_case(ctx, data, cuts, rseed):
     case = lambda: {'kind': 'queue', 'bytes': bytes(data), 'cuts': list(cuts), 'rseed': rseed}  # noqa: E731
     produced, ref = reference(data)
@@ -273,6 +296,9 @@ def run(ctx):
             ctx.put_sample({'stream': ' '.join('%02X' % b for b in data),
                             'cut_sets_tried': sum(1 for _ in all_cut_sets(len(data))),
                             'containers': 4})
+        for cut in range(0, len(data) + 1, 2):
+            checkpoint_case(ctx, data, cut, ('deepcopy', 'pickle')[(si + cut) % 2])
+            n += 1
     ctx.extra('short_streams_all_cuts', len(streams))
     # longer streams, random chunkings
     nl = 300 if ctx.tier == 'quick' else 20000
@@ -285,7 +311,11 @@ def run(ctx):
         for ci, cuts in enumerate(gen.chunkings(ctx.rng, len(data), 4)):
             conts = tuple(ctx.rng.choice(list(CONT)) for _ in range(3))
             rseed = f'{ctx.seed}:{ctx.shard}:L{j}:{ci}'
-            nt = run_case(ctx, data, cuts, conts, rseed, use_ctor=(ci == 0 and j % 3 == 0))
+            if ci % 2:
+                with gen.jumping_clocks():
+                    nt = run_case(ctx, data, cuts, conts, rseed, use_ctor=(ci == 0 and j % 3 == 0))
+            else:
+                nt = run_case(ctx, data, cuts, conts, rseed, use_ctor=(ci == 0 and j % 3 == 0))
             if nt:
                 ctx.nontrivial((hash(bytes(data)), tuple(cuts), conts, rseed))
             n += 1
@@ -333,7 +363,9 @@ def run(ctx):
 
 
 def replay(ctx, case):
-    if case['kind'] == 'case':
+    if case['kind'] == 'checkpoint':
+        checkpoint_case(ctx, list(case['bytes']), case['cut'], case['how'])
+    elif case['kind'] == 'case':
         run_case(ctx, list(case['bytes']), tuple(case['cuts']), tuple(case['conts']),
                  case['rseed'], case.get('ctor', False))
     elif case['kind'] == 'queue':
